@@ -619,6 +619,32 @@ def listing_getters(prog, rep):
                 bad.append('INCONCLUSIVE(unmodelled callee %s)' % e_unmodelled(em))
             rep.ob('listing:%s::%s' % (ty, name), 'TS-LISTING', fn, b['span'], '%s::%s lists every element of its collection, in stored order' % (ty, name), not bad and nret > 0,
                    detail='\n'.join(sorted(set(bad))[:4]), how='%d paths' % nret)
+    # tlang(): a view of the tlang field itself
+    fi = field_index(prog.facts, 'TransformExtensionList', lambda f: 'LanguageIdentifier' in f['ty'])
+    for fn in [f for f, b in prog.bodies.items() if f.startswith('unic_locale_impl::') and b['kind'] == 'AssocFn' and b.get('impl') and not b['impl']['trait']
+               and b['impl']['self_ty'].split('::')[-1] == 'TransformExtensionList' and b.get('sig') and b['sig']['output'].startswith('std::option::Option<&') and 'LanguageIdentifier' in b['sig']['output']]:
+        n += 1
+        b = prog.bodies[fn]
+        e = pxm.PX(prog)
+        bad = []
+        segs = e.explore(fn)
+        for s in segs:
+            if s.kind != 'return':
+                bad.append('path ends in %s' % s.kind)
+                continue
+            ap = terms.access_path(s.ret)
+            tag = [v for k, v in s.state.facts.items() if k[0] == 'tag' and (terms.access_path(k[1]) or (None, ()))[0] == 1 and terms.strip_some((terms.access_path(k[1]) or (None, ()))[1]) == (fi,)]
+            if ap and ap[0] == 1 and terms.strip_some(ap[1]) == (fi,):
+                continue
+            if s.ret[0] == 'adt' and s.ret[2] == 'None' and tag == ['neg']:
+                continue
+            if s.ret[0] == 'adt' and s.ret[2] == 'Some' and tag == ['pos']:
+                ap2 = terms.access_path(s.ret[3][0])
+                if ap2 and ap2[0] == 1 and terms.strip_some(ap2[1]) == (fi,):
+                    continue
+            bad.append('does not return a view of the tlang field: %s' % e.short(s.ret, 120))
+        rep.ob('listing:TransformExtensionList::%s' % fn.split('::')[-1], 'TS-LISTING', fn, b['span'], 'TransformExtensionList::%s returns the stored tlang (None iff absent)' % fn.split('::')[-1],
+               not bad and bool(segs), detail='\n'.join(sorted(set(bad))[:3]))
     return n
 
 
@@ -906,7 +932,7 @@ def mutator_obligations(rep, cfgs=('K0', 'K1'), with_getters=True):
             ne = is_empty_getters(prog, rep)
             rep.floor('is_empty getters of the extension types', ne, 4)
             nl = listing_getters(prog, rep)
-            rep.floor('listing accessors', nl, 5)
+            rep.floor('listing accessors', nl, 6)
             if with_getters:
                 ng = getters(prog, rep, roles)
                 rep.floor('validating getters', ng, 5)
